@@ -23,6 +23,8 @@ Proof.
     cbn in Hc. destruct (mem_s g G) eqn:M; [apply mem_s_in; assumption | discriminate].
   - destruct Hin as [E|[]]; discriminate.
   - destruct Hin as [E|[]]; discriminate.
+  - destruct Hin as [E|[]]; discriminate.
+  - apply (IHvexec G Hc x Hin).
   - contradiction.
   - destruct Hin as [E|Hin]; [discriminate|].
     destruct (IHvexec (g :: G) Hc x Hin) as [g' [Hg [[E|HG]|HZ]]].
@@ -57,4 +59,103 @@ Proof.
   intros eps name s t fl Hc Hin He Hwarm n Hw. unfold vcheck_program in Hc.
   pose proof (flat_map_nil' _ _ _ _ Hc _ Hin) as H1. cbn in H1. apply map_eq_nil in H1.
   destruct (vchk_sound s t fl He [] H1 n Hw) as [g [_ [[]|HZ]]]. exact (Hwarm g HZ).
+Qed.
+
+(* ------------------------------------------------------------------ value-aware runs *)
+
+Lemma set_flag_mono : forall nz g x, nz x = true -> set_flag nz g x = true.
+Proof. intros. unfold set_flag. destruct (String.eqb x g); auto. Qed.
+
+Lemma set_flag_same : forall nz g, set_flag nz g g = true.
+Proof. intros. unfold set_flag. now rewrite String.eqb_refl. Qed.
+
+(* a value-aware run is a run of the over-approximating semantics; flags only ever get set; a flag that is set is never
+   observed zero *)
+Lemma vrun_facts : forall nz s t fl nz', vrun nz s t fl nz' ->
+  vexec s t fl /\ (forall x, nz x = true -> nz' x = true) /\ (forall x, nz x = true -> ~ In (VZero x) t).
+Proof.
+  intros nz s t fl nz' H. induction H.
+  - split; [constructor|]. split; auto.
+  - split; [constructor|]. split; auto.
+  - split; [constructor|]. split; auto. intros x _ [E|[]]; discriminate.
+  - split; [constructor|]. split; auto. intros x _ [E|[]]; discriminate.
+  - split; [constructor|]. split; auto. intros x _ [E|[]]; discriminate.
+  - split; [constructor|]. split; auto. intros x _ [E|[]]; discriminate.
+  - split; [constructor|]. split; [intros; apply set_flag_mono; assumption|]. intros x _ [E|[]]; discriminate.
+  - destruct IHvrun as [E [M Z]]. split; [econstructor; eassumption|]. auto.
+  - split; [constructor|]. split; auto.
+  - destruct IHvrun as [E [M Z]]. split; [constructor; assumption|]. split; [assumption|].
+    intros x Hx [Eq|Hin]; [inversion Eq; subst; congruence | exact (Z x Hx Hin)].
+  - destruct IHvrun1 as [E1 [M1 Z1]]. destruct IHvrun2 as [E2 [M2 Z2]].
+    split; [econstructor; eassumption|]. split; [auto|].
+    intros x Hx Hin. apply in_app_or in Hin. destruct Hin as [Hin|Hin]; [exact (Z1 x Hx Hin) | exact (Z2 x (M1 x Hx) Hin)].
+  - destruct IHvrun as [E [M Z]]. split; [apply VX_seq_abrupt; assumption|]. auto.
+  - destruct IHvrun as [E [M Z]]. split; [apply VX_alt_l; assumption|]. auto.
+  - destruct IHvrun as [E [M Z]]. split; [apply VX_alt_r; assumption|]. auto.
+  - split; [constructor|]. split; auto.
+  - destruct IHvrun1 as [E1 [M1 Z1]]. destruct IHvrun2 as [E2 [M2 Z2]].
+    split; [eapply VX_loop_next; eassumption|]. split; [auto|].
+    intros x Hx Hin. apply in_app_or in Hin. destruct Hin as [Hin|Hin]; [exact (Z1 x Hx Hin) | exact (Z2 x (M1 x Hx) Hin)].
+  - destruct IHvrun as [E [M Z]]. split; [apply VX_loop_exit; assumption|]. auto.
+Qed.
+
+Lemma noabrupt_sound : forall nz s t fl nz', vrun nz s t fl nz' -> noabrupt s = true -> fl = false.
+Proof.
+  intros nz s t fl nz' H. induction H; intros Hn; cbn [noabrupt] in Hn; try reflexivity; try discriminate.
+  - apply IHvrun; assumption.
+  - apply andb_true_iff in Hn. apply IHvrun2; tauto.
+  - apply andb_true_iff in Hn. apply IHvrun; tauto.
+  - apply andb_true_iff in Hn. apply IHvrun; tauto.
+  - apply andb_true_iff in Hn. apply IHvrun; tauto.
+  - apply IHvrun2; assumption.
+  - pose proof (IHvrun Hn). discriminate.
+Qed.
+
+Lemma must_set_sound : forall g nz s t fl nz', vrun nz s t fl nz' -> must_set g s = true -> nz' g = true.
+Proof.
+  intros g nz s t fl nz' H. induction H; intros Hm; cbn [must_set] in Hm; try discriminate.
+  - apply String.eqb_eq in Hm. subst. apply set_flag_same.
+  - apply IHvrun; assumption.
+  - apply orb_true_iff in Hm. destruct Hm as [Hm|Hm].
+    + destruct (vrun_facts _ _ _ _ _ H0) as [_ [M _]]. apply M. apply IHvrun1; auto.
+    + apply andb_true_iff in Hm. apply IHvrun2; tauto.
+  - apply orb_true_iff in Hm. destruct Hm as [Hm|Hm]; [apply IHvrun; assumption|].
+    apply andb_true_iff in Hm. destruct Hm as [Hn _]. pose proof (noabrupt_sound _ _ _ _ _ H Hn). discriminate.
+  - apply andb_true_iff in Hm. apply IHvrun; tauto.
+  - apply andb_true_iff in Hm. apply IHvrun; tauto.
+Qed.
+
+Lemma always_sets_sound : forall g nz s t fl nz', vrun nz s t fl nz' -> always_sets g s = true -> nz' g = true.
+Proof.
+  intros g nz s t fl nz' H. induction H; intros Hm; cbn [always_sets] in Hm; try discriminate.
+  - apply String.eqb_eq in Hm. subst. apply set_flag_same.
+  - apply IHvrun; assumption.
+  - apply andb_true_iff in Hm. destruct Hm as [Eg _]. apply String.eqb_eq in Eg. subst. assumption.
+  - apply andb_true_iff in Hm. destruct Hm as [Eg Hm]. apply String.eqb_eq in Eg. subst g0.
+    eapply must_set_sound; eauto.
+  - apply orb_true_iff in Hm. destruct Hm as [Hm|Hm].
+    + destruct (vrun_facts _ _ _ _ _ H0) as [_ [M _]]. apply M. apply IHvrun1; auto.
+    + apply andb_true_iff in Hm. apply IHvrun2; tauto.
+  - apply orb_true_iff in Hm. destruct Hm as [Hm|Hm]; [apply IHvrun; assumption|].
+    apply andb_true_iff in Hm. destruct Hm as [Hn _]. pose proof (noabrupt_sound _ _ _ _ _ H Hn). discriminate.
+  - apply andb_true_iff in Hm. apply IHvrun; tauto.
+  - apply andb_true_iff in Hm. apply IHvrun; tauto.
+Qed.
+
+(* WARM-UP: after one normally completing call of an entry point that always sets its guard flag g, every later call (from any
+   later flag state) never observes g zero and therefore writes no non-atomic static guarded by g *)
+Theorem warm_after_first_call : forall eps name s g nz t1 fl1 nz1 nz1' t2 fl nz2,
+  vcheck_program eps = [] -> In (name, s) eps -> always_sets g s = true ->
+  vrun nz s t1 fl1 nz1 ->                               (* the warming call *)
+  (forall x, nz1 x = true -> nz1' x = true) ->            (* whatever happens in between, flags only get set *)
+  vrun nz1' s t2 fl nz2 ->                                (* any later call *)
+  ~ In (VZero g) t2 /\ forall n, guard_of n = Some g -> ~ In (VWr n) t2.
+Proof.
+  intros eps name s g nz t1 fl1 nz1 nz1' t2 fl nz2 Hc Hin Ha H1 Hmono H2.
+  pose proof (always_sets_sound g nz s t1 fl1 nz1 H1 Ha) as Hg.
+  destruct (vrun_facts _ _ _ _ _ H2) as [E2 [_ Z2]].
+  assert (Hz : ~ In (VZero g) t2) by (apply Z2; apply Hmono; assumption).
+  split; [assumption|]. intros n Hn Hw.
+  unfold vcheck_program in Hc. pose proof (flat_map_nil' _ _ _ _ Hc _ Hin) as Hs. cbn in Hs. apply map_eq_nil in Hs.
+  destruct (vchk_sound s t2 fl E2 [] Hs n Hw) as [g' [Hg' [[]|HZ]]]. rewrite Hn in Hg'. inversion Hg'; subst g'. contradiction.
 Qed.
